@@ -433,10 +433,8 @@ def run(ctx) -> None:
              "get_bands_below_range no longer returns (index of the last band below emin) + 1", stmt="add[-1] + 1")
     gi = idx.function(TET, "get_bands_in_range")
     r5.instance(gi.short)
-    ti_ = norm(gi.node).replace(" ", "")
-    r5.check("Ebandmax[ib1:ib2].max()>=emin" in ti_ and "Ebandmin[ib1:ib2].min()<=emax" in ti_,
-             "a group is in range iff it overlaps [emin, emax] (whole group kept)", gi, gi.node,
-             "the in-range test no longer keeps whole groups overlapping the window", stmt="in-range test")
+    from .groups import check_range_partition
+    check_range_partition(r5, idx)
 
     # ---------------------------------------------------------------- R13.6
     r6 = ctx.rule("R13.6", "non-additive formulas: group value = trace(0..ib2) − trace(0..ib1)")
